@@ -250,6 +250,7 @@ def run_case(spec):
         sch.faults.append((rng.randint(3, 400), (lambda i=rng.randint(0, 2): drv.drop(i)), "drop"))
     sch.faults.sort(key=lambda f: f[0])
     sch.run(900, until=lambda: all(p.app.closed for p in drv.progs) and len(drv.progs) >= 2)
+    drv.third_done = True       # no new participants once the wind-down starts
     for p in drv.progs:
         if not p.app.close_calls:
             p.budget["close"] = 1
@@ -296,7 +297,8 @@ def run_case(spec):
                 seen.add(key)
                 viol.append({"key": key, "msg": "%s.%s raised %s %s at step %d" % (p.name, label, tn, rep, step), "witness": wit()})
         if not p.app.closed:
-            # hang (bounded progress) is C08's concern; report it here only as a diagnostic counter
+            viol.append({"key": "C14/close-never-completes", "msg": "%s: no closed notification within 300 virtual s" % p.name,
+                         "witness": wit()})
             continue
         for v in set(p.app.close_results):
             if v not in DOCUMENTED_VERDICTS and not is_wormhole_error(v):
